@@ -10,7 +10,7 @@ PENDING = 'check under construction (DESIGN.md Appendix C); not claimed yet'
 CLAIMED = {
     'C19': dict(
         category='other',
-        text='Static provenance analysis over rustc MIR: every Cel/CelId construction, every index into the cel table, every Cel accessor and the three image routes are enumerated and shown to use the (file, frame, layer) triple un-swapped, for all inputs. Decides the structural clauses (same pair => same cel); pixel equality then follows from "same routine, same arguments" and is not checked numerically. Also: validated cel rows keep slot positions (one push per slot on every path), the parent table and the unnarrowed nesting level behind \'visible\'.',
+        text='Static provenance analysis over rustc MIR: every Cel/CelId construction, every index into the cel table, every Cel accessor and the three image routes are enumerated and shown to use the (file, frame, layer) triple un-swapped, for all inputs. Decides the structural clauses (same pair => same cel); pixel equality then follows from "same routine, same arguments" and is not checked numerically. Also: validated cel rows keep slot positions (one push per slot on every path), the parent table and the unnarrowed nesting level behind \'visible\'. The visibility walk tests every chain member including the layer itself (dataflow rule shared with C09); Cel::is_empty is exactly `the lookup finds nothing`.',
         design_ref='DESIGN.md section 4, C19',
         note='Trusted: rustc MIR construction, the asemir driver, std Vec/Index semantics. Parameter positions of the public API (cel(frame, layer), Frame::layer(layer), Layer::frame(frame), tilemap(layer, frame)) are the oracle.',
         technique='static analysis: MIR origin/provenance dataflow + dominance (custom rustc_private driver)'),
@@ -18,14 +18,14 @@ CLAIMED = {
 
 CLAIMED['C08'] = dict(
     category='other',
-    text='Static shape analysis over rustc MIR of the five places where tile geometry is computed, with index arithmetic compared as polynomials over atomic terms (so association, commutation, casts and temporaries are irrelevant; only which quantity multiplies which, and which axis meets which dimension, matters). Decided for all inputs: Tilemap::tile reads tiles[(y-oy)*W + (x-ox)] exactly inside 0<=x-ox<W, 0<=y-oy<H and otherwise returns the static EMPTY_TILE whose id is 0; the logical size is the per-axis rounded-up quotient of the canvas and the handle\'s own tileset; tile offsets are the cel position divided per axis by the tile size; tile_image(i) is the i-th block of tw*th pixels as a tw x th image and Tileset::image is all blocks in stored order with height th*count; the tilemap rasteriser blends pixel py*tw+px of tile_slice(tile(tx,ty).id) onto (cel.x+tx*tw+px, cel.y+ty*th+py) with the layer x cel opacity, TilemapData::tile reads tiles[y*W+x], tile_slice cuts pixels[ppt*id .. +ppt], Tilemap::image is its cel\'s image (delegation chain Tilemap::image -> Cel::image -> layer_image, drawn whenever the cel exists, image handed on untouched), the tileset chunk is read and stored as the spec table says; nothing but the per-pixel clip test (or a cull of tiles lying wholly outside the canvas) decides whether a pixel is drawn; and the checked arithmetic of these functions cannot wrap (same discharge rows as C04/C05/C16). NOT decided (and said so in the evidence): numerical agreement of lookup and image when the cel offset is not a multiple of the tile size (truncating division on negative offsets), and pixel values. Also: validate_tile_ids refuses only a tile id of the map >= tile_count, every tileset chunk is decoded wherever it stands, the layer chunk\'s DWORD tileset index is stored as read, no new refusal in the loader.',
+    text='Static shape analysis over rustc MIR of the five places where tile geometry is computed, with index arithmetic compared as polynomials over atomic terms (so association, commutation, casts and temporaries are irrelevant; only which quantity multiplies which, and which axis meets which dimension, matters). Decided for all inputs: Tilemap::tile reads tiles[(y-oy)*W + (x-ox)] exactly inside 0<=x-ox<W, 0<=y-oy<H and otherwise returns the static EMPTY_TILE whose id is 0; the logical size is the per-axis rounded-up quotient of the canvas and the handle\'s own tileset; tile offsets are the cel position divided per axis by the tile size; tile_image(i) is the i-th block of tw*th pixels as a tw x th image and Tileset::image is all blocks in stored order with height th*count; the tilemap rasteriser blends pixel py*tw+px of tile_slice(tile(tx,ty).id) onto (cel.x+tx*tw+px, cel.y+ty*th+py) with the layer x cel opacity, TilemapData::tile reads tiles[y*W+x], tile_slice cuts pixels[ppt*id .. +ppt], Tilemap::image is its cel\'s image (delegation chain Tilemap::image -> Cel::image -> layer_image, drawn whenever the cel exists, image handed on untouched), the tileset chunk is read and stored as the spec table says; nothing but the per-pixel clip test (or a cull of tiles lying wholly outside the canvas) decides whether a pixel is drawn; and the checked arithmetic of these functions cannot wrap (same discharge rows as C04/C05/C16). NOT decided (and said so in the evidence): numerical agreement of lookup and image when the cel offset is not a multiple of the tile size (truncating division on negative offsets), and pixel values. Also: validate_tile_ids refuses only a tile id of the map >= tile_count, every tileset chunk is decoded wherever it stands, the layer chunk\'s DWORD tileset index is stored as read, no new refusal in the loader. Also: TilesetsById::get(id) is a map lookup of the id among tilesets stored under their own id (not a position).',
     design_ref='DESIGN.md section 13 (supersedes the not-applicable entry of section 4/6 for C08)',
     note='Trusted: rustc MIR, the driver, the row-major contract of image::ImageBuffer::from_raw, Iterator::skip/take and slice indexing. Width safety of the arithmetic is C04/C05/C16, not this check. Accepted spellings of the rounded-up quotient: (p + t - 1) / t in any association, or p.div_ceil(t).',
     technique='static analysis: MIR provenance terms normalised to polynomials over atoms, guard/dominance inspection (custom rustc_private driver)')
 
 CLAIMED['C09'] = dict(
     category='other',
-    text='Static shape + provenance analysis over rustc MIR of the three functions that carry the property. compute_parents: one table entry per layer (enumerate over the whole slice, one push per iteration), the entry is None exactly under child_level == 0, otherwise the result of a last-match search (rposition) over the layers before it (take(id)) whose predicate is candidate.child_level < own child_level - by the documented meaning of rposition the nearest preceding layer with a smaller level, hence a lower id; no candidate is a ?-propagated error. Layer::parent() returns that entry for its own id; the level compared is the unnarrowed 16-bit file field, the layer chunk (incl. the flags word that carries the visible bit) is read and stored as the spec table says, and the layer-count cap rejects only more than 65536 layers. An explicit descending search loop with first-match break and a `parent.is_none() -> Err` check is accepted as a second spelling of the search. Layer::is_visible returns false only after a failed VISIBLE test of a member of the chain self, parent, grandparent, ... and true only at a member with no parent whose own test passed, the chain being loop-carried through the parents table (unbounded). frame_image draws a cel only under is_visible() of its layer. Decided for all level sequences because it is the shape of the search, not a sample of its results. Also: layers and cels are collected independently of their order in the file, no new refusal of legal forests (error-construction inventory).',
+    text='Static shape + provenance analysis over rustc MIR of the three functions that carry the property. compute_parents: one table entry per layer (enumerate over the whole slice, one push per iteration), the entry is None exactly under child_level == 0, otherwise the result of a last-match search (rposition) over the layers before it (take(id)) whose predicate is candidate.child_level < own child_level - by the documented meaning of rposition the nearest preceding layer with a smaller level, hence a lower id; no candidate is a ?-propagated error. Layer::parent() returns that entry for its own id; the level compared is the unnarrowed 16-bit file field, the layer chunk (incl. the flags word that carries the visible bit) is read and stored as the spec table says, and the layer-count cap rejects only more than 65536 layers. An explicit descending search loop with first-match break and a `parent.is_none() -> Err` check is accepted as a second spelling of the search. Layer::is_visible returns false only after a failed VISIBLE test of a member of the chain self, parent, grandparent, ... and true only at a member with no parent whose own test passed, the chain being loop-carried through the parents table (unbounded). frame_image draws a cel only under is_visible() of its layer. Decided for all level sequences because it is the shape of the search, not a sample of its results. Also: layers and cels are collected independently of their order in the file, no new refusal of legal forests (error-construction inventory). A must-dataflow over the CFG of is_visible (any loop shape, helpers inlined) shows that every value the chain cursor takes - the layer itself first - passed its VISIBLE test before it is replaced and before a result that can be true is produced; a stored cel cannot be dropped by a later cel chunk of a lower layer (grow-only rows).',
     design_ref='DESIGN.md section 13 (supersedes the not-applicable entry of section 4/6 for C09)',
     note='Trusted: rustc MIR, the driver, the documented semantics of Iterator::enumerate/take/rposition (not analysed). The rule recognises the rposition form of the search and the loop (strongly) / recursive / iterator (weakly: unbounded walk + VISIBLE flag) forms of is_visible; a rewrite into a different algorithm is reported as an unrecognised form.',
     technique='static analysis: MIR provenance terms, closure-body inspection, dominance/guards (custom rustc_private driver)')
@@ -46,7 +46,7 @@ CLAIMED['C15'] = dict(
 
 CLAIMED['C10'] = dict(
     category='other',
-    text='The attachment rule is a finite state machine written as match arms; an effect analysis over rustc MIR (writes through &mut ParseInfo with local callees inlined) reads the whole transition table off the code - per chunk kind the context effect and payload origin, per context the entity written and nothing else - and compares it with the table the property states, together with: no other writer of the state (and none in parse_frame outside the dispatch arms), initial state None, every entity constructed with an empty user-data slot, the tag vector never reordered between decoding and attachment, text/colour read only under their flag bits, accessors return the written field, validation moves entities without dropping user data. Every transition is decided for every arm, hence for every chunk sequence. Also: chunks are dispatched in file order, the context index is kept at >= 32 bits for slices, cel rows only grow, and the three routes to a cel are C19\'s rules (as S6).',
+    text='The attachment rule is a finite state machine written as match arms; an effect analysis over rustc MIR (writes through &mut ParseInfo with local callees inlined) reads the whole transition table off the code - per chunk kind the context effect and payload origin, per context the entity written and nothing else - and compares it with the table the property states, together with: no other writer of the state (and none in parse_frame outside the dispatch arms), initial state None, every entity constructed with an empty user-data slot, the tag vector never reordered between decoding and attachment, text/colour read only under their flag bits, accessors return the written field, validation moves entities without dropping user data. Every transition is decided for every arm, hence for every chunk sequence. Also: chunks are dispatched in file order, the context index is kept at >= 32 bits for slices, cel rows only grow, and the three routes to a cel are C19\'s rules (as S6). Also: the call that moves the context is on every error-free path through its dispatch arm (no bypass by an `if let` / `||` test).',
     design_ref='DESIGN.md section 4, C10',
     note='Trusted: rustc MIR, the driver, documented behaviour of Vec::len/push/get_mut. The oracle table is transcribed from the property statement (DESIGN.md C10).',
     technique='static analysis: MIR effect (write-set) analysis per match arm + provenance + dominance')
@@ -60,21 +60,21 @@ CLAIMED['C01'] = dict(
 
 CLAIMED['C11'] = dict(
     category='other',
-    text='Static check of the three palette decoders and of index validation over rustc MIR: layouts of the new and both legacy palette chunks equal the spec table (path enumeration); entry id = first + loop index and is the insertion key; legacy offsets are cumulative across packets, count byte 0 means 256, alpha is 255; the 0x0004/0x0011 decoders are siblings differing exactly in scale_6bit_to_8bit (which rejects >= 64); effect analysis of parse_frame gives palette precedence (new unconditional, legacy only under is_none, no other writer); every Pixels::Indexed construction is dominated by a successful whole-slice validate_indexed_pixels on the same data under Some(palette), and cel and tileset pixels reach the sprite only through that validation. no assignment to ParseInfo.palette exists outside the three palette chunk arms (no invented fallback palette); the two scaling end points the statement names (0 -> 0, 63 -> 255) are decided by constant propagation of those two literals through the call-free result term with u8 wrapping. Decides these clauses for all inputs; the interior of the 6->8 bit map is not part of the statement and not decided.',
+    text='Static check of the three palette decoders and of index validation over rustc MIR: layouts of the new and both legacy palette chunks equal the spec table (path enumeration); entry id = first + loop index and is the insertion key; legacy offsets are cumulative across packets, count byte 0 means 256, alpha is 255; the 0x0004/0x0011 decoders are siblings differing exactly in scale_6bit_to_8bit (which rejects >= 64); effect analysis of parse_frame gives palette precedence (new unconditional, legacy only under is_none, no other writer); every Pixels::Indexed construction is dominated by a successful whole-slice validate_indexed_pixels on the same data under Some(palette), and cel and tileset pixels reach the sprite only through that validation. no assignment to ParseInfo.palette exists outside the three palette chunk arms (no invented fallback palette); the two scaling end points the statement names (0 -> 0, 63 -> 255) are decided by constant propagation of those two literals through the call-free result term with u8 wrapping. Decides these clauses for all inputs; the interior of the 6->8 bit map is not part of the statement and not decided. The assignment in the Palette arm is on every error-free path through the arm (bypass search on the CFG, so gates written with || are seen).',
     design_ref='DESIGN.md section 4, C11',
     note='Trusted: rustc MIR, the driver, spec table, IntMap/HashMap semantics. A scaling formula outside the constant propagation (table lookup, call) is recorded as undecided, not reported.',
     technique='static analysis: read-schedule path enumeration vs spec + sibling comparison + effect analysis + must-pass-through dominance')
 
 CLAIMED['C02'] = dict(
     category='other',
-    text='Static check of the compositing skeleton over rustc MIR - eight clauses, each a necessary condition of bottom-to-top composition, decided for all inputs: fresh width x height canvas returned; cels visited through data[frame].iter().enumerate().filter_map (ascending layer index) with no early exit; slot storage by (frame, layer) with duplicate cels rejected; the only write_cel in the frame loop dominated by is_visible()==true of the same item\'s layer; per-pixel opacity = mul_un8(layer opacity of the cel\'s own layer, cel opacity); per-pixel function = blend_mode_to_blend_fn(mode of the cel\'s own layer) with the 19-row mode->function and code->mode tables equal to the spec; backdrop read and result store at the same (x, y), source from the cel pixel slice; cel offset sign-extended and every pixel access guarded by 0 <= coord < dimension. Partial: pixel values, clip index arithmetic and mul_un8 rounding are not decided. Also: the Cel arm of the dispatch is independent of the layers seen so far, the parent table / visibility chain is C09\'s, the divisions of blend::normal have the divisor src_a\'+back_a-mul_un8(back_a,src_a\') under back_a != 0 (lemma H3 stated), tile words are decoded with the cel\'s own masks.',
+    text='Static check of the compositing skeleton over rustc MIR - eight clauses, each a necessary condition of bottom-to-top composition, decided for all inputs: fresh width x height canvas returned; cels visited through data[frame].iter().enumerate().filter_map (ascending layer index) with no early exit; slot storage by (frame, layer) with duplicate cels rejected; the only write_cel in the frame loop dominated by is_visible()==true of the same item\'s layer; per-pixel opacity = mul_un8(layer opacity of the cel\'s own layer, cel opacity); per-pixel function = blend_mode_to_blend_fn(mode of the cel\'s own layer) with the 19-row mode->function and code->mode tables equal to the spec; backdrop read and result store at the same (x, y), source from the cel pixel slice; cel offset sign-extended and every pixel access guarded by 0 <= coord < dimension. Partial: pixel values, clip index arithmetic and mul_un8 rounding are not decided. Also: the Cel arm of the dispatch is independent of the layers seen so far, the parent table / visibility chain is C09\'s, the divisions of blend::normal have the divisor src_a\'+back_a-mul_un8(back_a,src_a\') under back_a != 0 (lemma H3 stated), tile words are decoded with the cel\'s own masks. Also: the visibility walk tests every chain member (C09\'s dataflow rule), a linked cel is drawn by one recursive call on its target (offset and opacity are the target\'s), the layer flags word is converted by a masking conversion.',
     design_ref='DESIGN.md section 4, C02',
     note='Trusted: rustc MIR, the driver, image::ImageBuffer::new zero-fills, the blend-mode numbering of the spec (DESIGN.md Appendix A). Structural clauses only; numeric equality with Aseprite is C03 (not applicable).',
     technique='static analysis: MIR provenance + dominance (guards) + switch-table extraction')
 
 CLAIMED['C06'] = dict(
     category='other',
-    text='Static check over rustc MIR of how cel pixels are decoded and handed to the rasteriser, decided for all inputs: cel chunk layout (signed x/y, four cel types, declared payload size w*h*bytes_per_pixel) equals the spec table; cel-type, colour-depth and bytes-per-pixel tables read off the match arms; RGBA = four consecutive byte reads in order, grayscale (v,a) -> [v,v,v,a], indexed -> [c.red,c.green,c.blue,A] with A = 0 exactly under (transparent_index == index && !layer_is_background); background flag from the cel\'s own layer (bit 0x8), transparent index from the header field; linked cels resolved against the same layer in the linked frame and drawn through the same routine; is_empty = is_none without negation; absent cel offset (0,0); opacity product and sign-extended offset as in C02. Partial: pixel values end to end and zlib correctness are not decided. Also: the take() bound of the inflater, Cel::image delegation, the link-target table built from the whole input, grow-only cel rows, the palette decoders (as V), no new refusal in the loader, the divisions of blend::normal.',
+    text='Static check over rustc MIR of how cel pixels are decoded and handed to the rasteriser, decided for all inputs: cel chunk layout (signed x/y, four cel types, declared payload size w*h*bytes_per_pixel) equals the spec table; cel-type, colour-depth and bytes-per-pixel tables read off the match arms; RGBA = four consecutive byte reads in order, grayscale (v,a) -> [v,v,v,a], indexed -> [c.red,c.green,c.blue,A] with A = 0 exactly under (transparent_index == index && !layer_is_background); background flag from the cel\'s own layer (bit 0x8), transparent index from the header field; linked cels resolved against the same layer in the linked frame and drawn through the same routine; is_empty = is_none without negation; absent cel offset (0,0); opacity product and sign-extended offset as in C02. Partial: pixel values end to end and zlib correctness are not decided. Also: the take() bound of the inflater, Cel::image delegation, the link-target table built from the whole input, grow-only cel rows, the palette decoders (as V), no new refusal in the loader, the divisions of blend::normal. Also: which palette chunk supplies the colours (the new chunk on every path through its arm - no bypass, an old chunk only while none is set).',
     design_ref='DESIGN.md section 4, C06',
     note='Trusted: rustc MIR, the driver, spec table, flate2. Structural clauses only.',
     technique='static analysis: read-schedule path enumeration vs spec + MIR provenance + switch tables + guard dominance')
@@ -88,7 +88,7 @@ CLAIMED['C07'] = dict(
 
 CLAIMED['C17'] = dict(
     category='other',
-    text='Static check of the call structure of blend.rs over rustc MIR: every non-Normal mode is blender(backdrop, src, opacity, its own distinct baseline); every baseline returns normal(backdrop, S\', opacity) on every path with alpha(S\') = alpha of src; blender is merge(merge(N, X, .), X, .) under a visible backdrop and normal(b,s,o) otherwise; normal\'s transparent-backdrop / transparent-source edges and the origin of its general alpha (only the two alphas and opacity); merge\'s alpha = blend8(back_a, src_a, opacity) and invisible-operand edges. From this wiring plus two stated arithmetic helper facts (H1 blend8(a,a,o)=a, H2 merge(c,c,o)=c) the mode-independent alpha law and the transparent-source / transparent-backdrop identities follow. Partial: H1/H2, the 0..255 range clause, the opaque-Normal and zero-opacity identities and all pixel values are NOT decided. Also decided: the divisions of normal (divisor shape under back_a != 0, lemma H3), no assertion site in blend.rs other than the four range assertions of from_rgba_i32 unless discharged, header/layer layouts and the background-flag test.',
+    text='Static check of the call structure of blend.rs over rustc MIR: every non-Normal mode is blender(backdrop, src, opacity, its own distinct baseline); every baseline returns normal(backdrop, S\', opacity) on every path with alpha(S\') = alpha of src; blender is merge(merge(N, X, .), X, .) under a visible backdrop and normal(b,s,o) otherwise; normal\'s transparent-backdrop / transparent-source edges and the origin of its general alpha (only the two alphas and opacity); merge\'s alpha = blend8(back_a, src_a, opacity) and invisible-operand edges. From this wiring plus two stated arithmetic helper facts (H1 blend8(a,a,o)=a, H2 merge(c,c,o)=c) the mode-independent alpha law and the transparent-source / transparent-backdrop identities follow. Partial: H1/H2, the 0..255 range clause, the opaque-Normal and zero-opacity identities and all pixel values are NOT decided. Also decided: the divisions of normal (divisor shape under back_a != 0, lemma H3), no assertion site in blend.rs other than the four range assertions of from_rgba_i32 unless discharged, header/layer layouts and the background-flag test. Also: a linked cel takes its target\'s opacity (one recursive call), and the cel opacity is the byte the cel chunk stores, every value of it (layout + store rows of the CEL chunk).',
     design_ref='DESIGN.md section 4, C17',
     note='Trusted: rustc MIR, the driver. Assumptions H1, H2 are listed in the evidence; the range clause would need relational numeric reasoning (a solver) - out of this technique family.',
     technique='static analysis: call-structure provenance over MIR (per-edge return terms, sibling distinctness)')
